@@ -26,6 +26,22 @@ def qnmatch(name:str, pattern:str) -> bool:
     match = _compile_pattern(pattern)
     return match(name) is not None
 
+def _remove_empty_ranges(stuff:str) -> str:
+    """
+    Remove the ranges C{x-y} with C{x > y} from the content of a C{[seq]} pattern.
+    """
+    kept = ''
+    k, n = 0, len(stuff)
+    while k < n:
+        if k+2 < n and stuff[k+1] == '-':
+            if stuff[k] <= stuff[k+2]:
+                kept += stuff[k:k+3]
+            k += 3
+        else:
+            kept += stuff[k]
+            k += 1
+    return kept
+
 # Barely changed from https://github.com/python/cpython/blob/3.8/Lib/fnmatch.py
 # Not using python3.9+ version because implementation is significantly more complex.
 def translate(pat:str) -> str:
@@ -60,10 +76,18 @@ def translate(pat:str) -> str:
             else:
                 stuff = pat[i:j]
                 # Changes begins: simplifications handling backslashes and hyphens not required for fully qualified names.
+                negated = stuff[0] == '!'
+                # A range whose bounds are reversed, like in '[z-a]', contains no character:
+                # remove it, the regular expression compiler refuses it.
+                stuff = _remove_empty_ranges(stuff[1:] if negated else stuff)
                 stuff = stuff.replace('\\', r'\\')
                 i = j+1
-                if stuff[0] == '!':
-                    stuff = '^' + stuff[1:]
+                if not stuff:
+                    # No character left in the set: '[z-a]' never matches, '[!z-a]' matches any character.
+                    res = res + ('.' if negated else '(?!)')
+                    continue
+                if negated:
+                    stuff = '^' + stuff
                 elif stuff[0] in ('^', '['):
                     stuff = '\\' + stuff
                 res = '%s[%s]' % (res, stuff)
